@@ -119,7 +119,49 @@ def naive_search(parts, s, pos, nm, srch=True):
     return None
 
 
+
+class Hung(BaseException):
+    pass
+
+
+class TooManyHangs(Exception):
+    pass
+
+
+HANGS = {'n': 0}
+
+
+def bounded(fn, *a, **kw):
+    """the matcher is proved total: a call that is still running after 10 s (microseconds are normal) does not terminate"""
+    import signal
+
+    def on_alarm(_s, _f):
+        raise Hung()
+    old = signal.signal(signal.SIGALRM, on_alarm)
+    signal.setitimer(signal.ITIMER_REAL, 10.0)
+    try:
+        return fn(*a, **kw)
+    finally:
+        signal.setitimer(signal.ITIMER_REAL, 0)
+        signal.signal(signal.SIGALRM, old)
+
+
+def note_hang(ctx, what, rep):
+    ctx.violation('matcher-does-not-terminate', what + ' is still running after 10 s', rep)
+    HANGS['n'] += 1
+    if HANGS['n'] >= 3:
+        raise TooManyHangs()
+
+
 def explore(ctx):
+    HANGS['n'] = 0
+    try:
+        explore_inner(ctx)
+    except TooManyHangs:
+        pass      # three non-terminating calls are reported; the rest of the exploration would only repeat them
+
+
+def explore_inner(ctx):
     from cvise.utils import nestedmatcher as nm
     from cvise.passes.ternary import TernaryPass
     from cvise.passes.peep import PeepPass
@@ -129,8 +171,11 @@ def explore(ctx):
 
     def do_find(expr, prefix, s, pos, tag, model=True):
         try:
-            real = nm.find(expr, s, pos=pos, prefix=prefix)
+            real = bounded(nm.find, expr, s, pos=pos, prefix=prefix)
             exc = None
+        except Hung:
+            note_hang(ctx, f'find({expr.name}, {s!r}, pos={pos}, prefix={prefix!r})', {'kind': 'find', 'expr': expr.name, 'prefix': prefix, 's': s[:400], 'pos': pos})
+            return
         except Exception as e:
             real, exc = None, e
         parts = ([nm.RegExPattern(prefix)] if prefix else []) + [nm.BalancedPattern(expr)]
@@ -155,8 +200,11 @@ def explore(ctx):
 
     def do_search(parts, s, pos, srch, tag):
         try:
-            real = nm.search(parts, s, pos=pos, search=srch)
+            real = bounded(nm.search, parts, s, pos=pos, search=srch)
             exc = None
+        except Hung:
+            note_hang(ctx, f'search({tag}, {s!r}, pos={pos}, search={srch})', {'kind': 'search', 'tag': tag, 's': s, 'pos': pos, 'srch': srch})
+            return
         except Exception as e:
             real, exc = None, e
         ref = naive_search(parts, s, pos, nm, srch)
